@@ -1,4 +1,5 @@
 import LabtechModel.Proofs.StoreRefine
+import LabtechModel.Proofs.LinkExampleKeys
 /-!
 # C06 — A cache hit returns the result and metadata stored for that very task
 
@@ -12,6 +13,17 @@ Hypotheses, spelled out where used: `KeyInj U` — distinct tasks have distinct 
 property C07; its recorded known finding F07 is exactly a violation of this hypothesis);
 `Wf U d` — every entry on the disk was written by `BaseCache.save` (holds for the empty disk and is
 preserved by every Lab operation: `Props/C08.lean`, `lab_refines_map`).
+
+**Discharged (second half of this file): the hypothesis `KeyInj`.** `keyInj_from_c07`
+(= `Lt.Link.keyInj_of_params`, `Proofs/LinkKeys.lean`) derives it from the params model: the universe's
+type / hash numbers stand for the class strings / sha1 digests of real parameter trees (`Represents`;
+`store_key_is_real_key`: equal structured keys ⇒ equal real `cache_key` strings), the trees are
+well-formed (`WfTasks`: `wfValue` at every depth — F07's input class stays excluded, as in C07) and
+pairwise distinct, and the two named assumptions of C07 hold on the tasks that occur: `ShaInjOn` (sha1
+does not collide) and `DumpsInjOn` (`json.dumps` separates the documents). `load_own_entry_params`,
+`cache_hit_returns_stored_params`, `second_run_loads_first_runs_result_params`, `save_frame_params` are
+the theorems above with `KeyInj` replaced by these assumptions. That the *scheduled* second run (any
+backend, any schedule) is the `labRun` used here is `Props.C08.labRun_agrees_with_scheduler`.
 -/
 namespace Lt.Props.C06
 open Lt.Store
@@ -116,5 +128,89 @@ example :
     let a2 := labRun exU false 2 [] [2] a1.disk
     a1.execd = [2, 1, 0] ∧ a2.execd = [] ∧ returned [2] a2 = returned [2] a1 ∧
     a2.loaded = [(2, { val := 3003, start := 1, dur := 102 })] := by decide
+
+
+/-! ## `KeyInj` discharged from the params model (C07)
+
+`Lt.Link.keyInj_of_params` (`Proofs/LinkKeys.lean`): when the universe's type / hash numbers stand for
+the class strings / sha1 digests of real parameter trees `task t` (`Represents`), every tree is
+well-formed (`WfTasks`: `wfValue` at every depth, so F07's input class stays excluded exactly as in
+C07), tids name distinct tasks (`Distinct`), sha1 does not collide on the pre-images that occur
+(`ShaInjOn`) and `json.dumps` separates the documents that occur (`DumpsInjOn`), then `KeyInj U`.
+The theorems above, with `KeyInj` replaced by these assumptions: -/
+
+/-- `KeyInj` of a universe that represents well-formed, pairwise distinct parameter trees -/
+theorem keyInj_from_c07 (U : Universe) (sha1 : String → String) (task : Nat → Lt.Params.Task)
+    (hrep : Lt.Link.Represents U sha1 task) (hwf : Lt.Link.WfTasks U.n task) (hdist : Lt.Link.Distinct U.n task)
+    (hsha : Lt.Link.ShaInjOn sha1 U.n task) (hdumps : Lt.Link.DumpsInjOn U.n task) : KeyInj U :=
+  Lt.Link.keyInj_of_params U sha1 task hrep hwf hdist hsha hdumps
+
+/-- equal structured keys of the history model mean equal real `cache_key` strings -/
+theorem store_key_is_real_key (U : Universe) (sha1 : String → String) (task : Nat → Lt.Params.Task)
+    (hrep : Lt.Link.Represents U sha1 task) (hwf : Lt.Link.WfTasks U.n task) (fmt : Lt.Params.CacheFmt)
+    (t t' : Nat) (ht : t < U.n) (ht' : t' < U.n) (h : keyOf U t = keyOf U t') :
+    Lt.Params.cacheKey sha1 fmt (task t) = Lt.Params.cacheKey sha1 fmt (task t') :=
+  Lt.Link.storeKey_eq_realKey_eq U sha1 task hrep hwf fmt t t' ht ht' h
+
+theorem save_frame_params (U : Universe) (sha1 : String → String) (task : Nat → Lt.Params.Task)
+    (hrep : Lt.Link.Represents U sha1 task) (hwf : Lt.Link.WfTasks U.n task) (hdist : Lt.Link.Distinct U.n task)
+    (hsha : Lt.Link.ShaInjOn sha1 U.n task) (hdumps : Lt.Link.DumpsInjOn U.n task)
+    (d : Disk) (t t' : Nat) (r : Stored) (h : t' ≠ t) :
+    cLoad U (cSave U d t r) t' = cLoad U d t' ∧ labIsCached U (cSave U d t r) t' = labIsCached U d t' :=
+  save_frame U (keyInj_from_c07 U sha1 task hrep hwf hdist hsha hdumps) d t t' r h
+
+/-- `load_own_entry` with `KeyInj` replaced by the C07 assumptions -/
+theorem load_own_entry_params (U : Universe) (sha1 : String → String) (task : Nat → Lt.Params.Task)
+    (hrep : Lt.Link.Represents U sha1 task) (hwf : Lt.Link.WfTasks U.n task) (hdist : Lt.Link.Distinct U.n task)
+    (hsha : Lt.Link.ShaInjOn sha1 U.n task) (hdumps : Lt.Link.DumpsInjOn U.n task)
+    (d : Disk) (wf : Wf U d) (t : Nat) (s : Stored) (h : cLoad U d t = some s) :
+    ∃ e, (keyOf U t, e) ∈ d ∧ e.task = t ∧ e.key = keyOf U t ∧ e.cls = kindOf U t ∧
+      s = { val := e.data, start := e.start, dur := e.dur } :=
+  load_own_entry U (keyInj_from_c07 U sha1 task hrep hwf hdist hsha hdumps) d wf t s h
+
+/-- `cache_hit_returns_stored` with `KeyInj` replaced by the C07 assumptions -/
+theorem cache_hit_returns_stored_params (U : Universe) (sha1 : String → String) (task : Nat → Lt.Params.Task)
+    (hrep : Lt.Link.Represents U sha1 task) (hwf : Lt.Link.WfTasks U.n task) (hdist : Lt.Link.Distinct U.n task)
+    (hsha : Lt.Link.ShaInjOn sha1 U.n task) (hdumps : Lt.Link.DumpsInjOn U.n task)
+    (g : Nat) (fl : List Nat) (a : Acc) (wf : Wf U a.disk) (t : Nat) (s : Stored) (h : cLoad U a.disk t = some s) :
+    stepC U false g fl a t = { a with vals := (t, some s.val) :: a.vals, loaded := (t, s) :: a.loaded } :=
+  cache_hit_returns_stored U (keyInj_from_c07 U sha1 task hrep hwf hdist hsha hdumps) g fl a wf t s h
+
+/-- `second_run_loads_first_runs_result` with `KeyInj` replaced by the C07 assumptions -/
+theorem second_run_loads_first_runs_result_params (U : Universe) (sha1 : String → String)
+    (task : Nat → Lt.Params.Task)
+    (hrep : Lt.Link.Represents U sha1 task) (hwf : Lt.Link.WfTasks U.n task) (hdist : Lt.Link.Distinct U.n task)
+    (hsha : Lt.Link.ShaInjOn sha1 U.n task) (hdumps : Lt.Link.DumpsInjOn U.n task)
+    (d : Disk) (t : Nat) (r : Stored)
+    (hc : cacheable U t = true) (hs : U.nullStorage = false)
+    (others : List (Nat × Stored)) (hne : ∀ p ∈ others, p.1 ≠ t) (hlt : ∀ p ∈ others, p.1 < U.n)
+    (wf : Wf U d) (ht : t < U.n) (g : Nat) (fl : List Nat) (a : Acc)
+    (ha : a.disk = others.foldl (fun d p => cSave U d p.1 p.2) (cSave U d t r)) :
+    (stepC U false g fl a t).vals = (t, some r.val) :: a.vals ∧
+    (stepC U false g fl a t).execd = a.execd ∧
+    (stepC U false g fl a t).loaded = (t, r) :: a.loaded :=
+  second_run_loads_first_runs_result U (keyInj_from_c07 U sha1 task hrep hwf hdist hsha hdumps)
+    d t r hc hs others hne hlt wf ht g fl a ha
+
+/-- non-vacuity: the universe `Lt.Link.exPU` is built from three real parameter trees
+    (`m.Leaf(x=1)`, `m.Raw(y="a")` with `cache=None`, `m.Box(a=Leaf, b=Raw)` depending on both) and
+    satisfies every assumption; its `KeyInj` is a consequence, also through the real key string -/
+example : Lt.Link.Represents Lt.Link.exPU Lt.Link.exSha Lt.Link.exTask ∧ Lt.Link.WfTasks 3 Lt.Link.exTask ∧
+    Lt.Link.Distinct 3 Lt.Link.exTask ∧ Lt.Link.ShaInjOn Lt.Link.exSha 3 Lt.Link.exTask ∧
+    Lt.Link.DumpsInjOn 3 Lt.Link.exTask ∧ (∀ x, (Lt.Link.exSha x).toList.length = 40) ∧ KeyInj Lt.Link.exPU :=
+  ⟨Lt.Link.exPU_represents, Lt.Link.exTask_wf, Lt.Link.exTask_distinct, Lt.Link.exSha_injOn,
+   Lt.Link.exTask_dumpsInj, Lt.Link.exSha_len,
+   Lt.Link.keyInj_of_params_via_cacheKey Lt.Link.exPU Lt.Link.exSha Lt.Link.exSha_len Lt.Link.exTask
+     Lt.Link.exPU_represents Lt.Link.exTask_wf Lt.Link.exTask_distinct Lt.Link.exSha_injOn Lt.Link.exTask_dumpsInj⟩
+
+set_option maxRecDepth 100000 in
+/-- on `exPU`: the second run loads what the first run stored; `Raw` (`cache=None`) is executed again -/
+example :
+    let a1 := labRun Lt.Link.exPU false 1 [] [2] []
+    let a2 := labRun Lt.Link.exPU false 2 [] [2, 1] a1.disk
+    a1.execd = [2, 1, 0] ∧ a2.execd = [1] ∧ a2.loaded = [(2, { val := 3003, start := 1, dur := 102 })] ∧
+    returned [2] a2 = returned [2] a1 ∧
+    (keyOf Lt.Link.exPU 0).cls = .pickle ∧ (keyOf Lt.Link.exPU 1).cls = .null ∧ (keyOf Lt.Link.exPU 2).cls = .other := by
+  decide
 
 end Lt.Props.C06
